@@ -163,10 +163,18 @@ def run(ctx):
             ctx.hit(k, v)
     finally:
         unhook()
+    # classification through the iCalendar zone's component cache under controlled thread schedules
+    if ctx.shard == 0:
+        from vf import tz_sched
+        from vf.oracles import posix_tz_ref as PZ
+        pz = PZ.PosixZone('EST', -18000, 'EDT', -14400, ('M', 3, 2, 0), 7200, ('M', 11, 1, 0), 7200)
+        tz_sched.sweep(ctx, tz, pz, ctx.rng, 120 if ctx.tier == 'quick' else 1500)
 
 
 def floors(agg, tier):
     c, out = agg['counters'], []
+    if c.get('tzical_scheduled_runs', 0) < 100:
+        out.append('only %d scheduled runs on a shared iCalendar zone' % c.get('tzical_scheduled_runs', 0))
     for k, n in (('zones_fixed', 8), ('zones_tzfile', 30 if tier == 'quick' else 300), ('zones_tzfile-synthetic', 15), ('zones_tzstr', 20),
                  ('zones_tzrange', 20), ('zones_tzical', 8), ('zones_tzlocal', 20), ('class_0_preimages', 2000), ('class_2_preimages', 2000),
                  ('class_1_preimages', 2000), ('width_gap-1h', 500), ('width_fold-1h', 500), ('width_gap-30m', 10), ('width_gap-2h', 10),
